@@ -695,6 +695,51 @@ def region_not(a: List[Box]) -> List[Box]:
     return out
 
 
+def _value_guards(body: List[ast.stmt]) -> Optional[List[ast.stmt]]:
+    """`if C: return <const>` ... `return E`   ==>   `ret = <const>` / `if not C: ... ret = E` / `return ret`
+    (an optional-read helper written with early returns reads like the nested form). Applied only when every early return is a
+    guard clause at the top level of the body returning the same constant."""
+    guards = [(i, s) for i, s in enumerate(body[:-1]) if isinstance(s, ast.If) and not s.orelse and len(s.body) == 1 and isinstance(s.body[0], ast.Return)
+              and (s.body[0].value is None or isinstance(s.body[0].value, ast.Constant))]
+    if not guards:
+        return None
+    others = [x for b in body[:-1] for x in ast.walk(b) if isinstance(x, ast.Return)]
+    if len(others) != len(guards):
+        return None            # a return somewhere deeper: leave the body alone
+    consts = {repr(s.body[0].value.value) if s.body[0].value is not None else "None" for _, s in guards}
+    if len(consts) != 1:
+        return None
+    final = body[-1]
+    if isinstance(final.value, ast.Call) and isinstance(final.value.func, ast.Name) and final.value.func.id[:1].isupper():
+        return None            # constructor returns are handled by the field-wise rewrite below
+    ret = "__ret"
+    cval = guards[0][1].body[0].value or ast.Constant(value=None)
+
+    def mk_assign(val, at):
+        a = ast.Assign(targets=[ast.Name(id=ret, ctx=ast.Store())], value=val)
+        ast.copy_location(a, at)
+        ast.fix_missing_locations(a)
+        return a
+
+    def nest(stmts: List[ast.stmt]) -> List[ast.stmt]:
+        for i, s in enumerate(stmts):
+            if any(s is g for _, g in guards):
+                t = s.test
+                neg = t.operand if isinstance(t, ast.UnaryOp) and isinstance(t.op, ast.Not) else ast.UnaryOp(op=ast.Not(), operand=t)
+                inner = nest(stmts[i + 1:])
+                new_if = ast.If(test=neg, body=inner or [ast.Pass()], orelse=[])
+                ast.copy_location(new_if, s)
+                ast.fix_missing_locations(new_if)
+                return list(stmts[:i]) + [new_if]
+        return list(stmts)
+    core = list(body[:-1]) + [mk_assign(final.value, final)]
+    out = [mk_assign(cval, body[0])] + nest(core)
+    r = ast.Return(value=ast.Name(id=ret, ctx=ast.Load()))
+    ast.copy_location(r, final)
+    ast.fix_missing_locations(r)
+    return out + [r]
+
+
 def normalise_guards(body: List[ast.stmt]) -> List[ast.stmt]:
     """Early-return guard clauses of a decoder are rewritten into the nested form the extractor reads:
 
@@ -705,6 +750,10 @@ def normalise_guards(body: List[ast.stmt]) -> List[ast.stmt]:
 
     Only when the early return builds the same class with the same arguments, except for arguments that are a constant in
     the early return and a local (first bound in REST) in the final one.  Anything else is left untouched."""
+    if len(body) >= 2 and isinstance(body[-1], ast.Return) and body[-1].value is not None:
+        v = _value_guards(body)
+        if v is not None:
+            return v
     if len(body) < 2 or not (isinstance(body[-1], ast.Return) and isinstance(body[-1].value, ast.Call)):
         return body
     final = body[-1].value
@@ -795,6 +844,27 @@ class ReaderExtractor:
     # ------------------------------------------------------------------ helpers
     def _tagtests(self, t: ast.expr, st) -> Optional[Tuple[str, TagSpec]]:
         """Conjunction of tests on `<h>.tag.tag_class == TagClass.X` / `<h>.tag.tag_number == N` -> (header var, spec)."""
+        r = self._tagtests_plain(t, st)
+        if r is not None:
+            return r
+        # any other boolean combination (negations, !=, `not (a != x or b != y)`): decide it with the (class, number) algebra;
+        # it is a tag test when exactly one identifier - or one class with any number - satisfies it
+        t2 = self._subst_aliases(t, st)
+        for hv in [x.id for x in ast.walk(t2) if isinstance(x, ast.Name) and x.id in st["headers"]][:1]:
+            reg = self._region_of(t2, st, hv)
+            if reg is None:
+                return None
+            reg = [b for b in reg if not b.empty()]
+            if len(reg) == 1 and len(reg[0].classes) == 1:
+                b = reg[0]
+                cn = next(iter(b.classes))
+                if b.nums_in is not None and len(b.nums_in) == 1:
+                    return hv, TagSpec("header", None, cn, next(iter(b.nums_in)))
+                if b.nums_in is None and not b.nums_notin:
+                    return hv, TagSpec("header", None, cn, None)
+        return None
+
+    def _tagtests_plain(self, t: ast.expr, st) -> Optional[Tuple[str, TagSpec]]:
         t = self._subst_aliases(t, st)
         oh = self._opt_header_test(t, st)
         if oh is not None:
@@ -1403,7 +1473,7 @@ class ReaderExtractor:
                     pass
             st2["consts"] = consts
             # constant arguments (e.g. the class object for cls.filter_id) are visible through folding with self_cls
-            self._block(callee.node.body, st2)
+            self._block(normalise_guards(list(callee.node.body)), st2)
             node = RNode("inline", var=name, line=call.lineno, func=fi.qualname)
             node.nt = callee.qualname
             node.sub = res2
